@@ -25,7 +25,7 @@ def fetchMatching (fuel : Nat) (sm : Meta) (combined : List Obj) (mo : Obj) : Li
 
 def defnOne (e : Envs) (fuel : Nat) (diff : Bool) (mo : Obj) :
     (Option Obj × List Nat) → Obj → R (Option Obj × List Nat) := fun acc ms =>
-  (fetchDefn e fuel diff mo ms).map (fun ro => (ro, acc.2 ++ idOf ms))
+  (fetchDefn e fuel diff mo ms).map (fun ro => (ro, acc.2 ++ idOf ms ++ srcRefs ms))
 
 def defnFinish (diff : Bool) (mo : Obj) (mm : Meta) (out : List Obj) :
     R (Option Obj × List Nat) → R (List Obj × List Nat)
@@ -49,7 +49,8 @@ def candOf (F : FetchFn) (e : Envs) (fuel : Nat) (diff : Bool) (mo : Obj) (fromM
   match mo, ms with
   | .defn _ _, _ =>
     (fetchDefn e fuel diff mo ms).map (fun ro =>
-      (ro, match ms.meta.id with | some i => (if fromM then [] else [i]) | none => []))
+      (ro, (match ms.meta.id with | some i => (if fromM then [] else [i]) | none => []) ++
+        (if fromM then [] else srcRefs ms)))
   | .scope mm kids, .scope _ skids =>
     (F diff mm kids skids).map (fun (ro, u) =>
       ((if diff && ro.children.isEmpty then none else some ro), if fromM then [] else u))
@@ -284,6 +285,45 @@ theorem SameDecl.disabled {mo o : Obj} (h : SameDecl mo o) : o.meta.disabled = m
 theorem SameDecl.id {mo o : Obj} (h : SameDecl mo o) : o.meta.id = mo.meta.id :=
   by have := congrArg Meta.id h.2; exact this
 
+/-- the source words `fetch_value` works with: the outcome of `source.resolve_variables` recorded in
+    `Meta.varRes`, or the words themselves when nothing was recorded (they must then be `$`-free) -/
+def srcWordsR (smeta : Meta) (sws0 : List Word) : R (List Word) :=
+  match smeta.varRes with
+  | some (.err site line) => .error (.runtime site line)
+  | some (.ok rws _) => .ok rws
+  | none => if hasDollar sws0 then .error (.unsupported "variable in source") else .ok sws0
+
+/-- `fetch_value` once the (resolved) source words are known -/
+def fetchValueW (mm : Meta) (mws sws : List Word) : R (Option Obj) :=
+  let dep := (mm.attrs.get "deprecated").truthy
+  if dep && ((isPlainNone sws && isPlainNone mws) || (isPlainAuto sws && isPlainAuto mws) ||
+             (!isPlainNone sws && !isPlainAuto sws && !isPlainNone mws && !isPlainAuto mws &&
+              sws.map (fun (w : Word) => w.value) == mws.map (fun (w : Word) => w.value))) then
+    .ok none
+  else
+    match mm.attrs.get "type" with
+    | .conv (.choice _) =>
+      (choiceFetch mws (mm.attrs.get "optional") sws false).map (fun ws => some (.defn { mm with tmpl := 0 } ws))
+    | _ => .ok (some (.defn { mm with tmpl := 0 } sws))
+
+theorem fetchValue_defn (mm : Meta) (mws : List Word) (smeta : Meta) (sws0 : List Word) :
+    fetchValue (.defn mm mws) (.defn smeta sws0) =
+      match srcWordsR smeta sws0 with
+      | .error err => .error err
+      | .ok sws => fetchValueW mm mws sws := rfl
+
+theorem fetchValueW_shape (mm : Meta) (mws sws : List Word) (ro : Obj)
+    (h : fetchValueW mm mws sws = .ok (some ro)) : ∃ ws, ro = .defn { mm with tmpl := 0 } ws := by
+  simp only [fetchValueW] at h
+  split at h
+  · cases h
+  · split at h
+    · obtain ⟨ws, _, hw⟩ := except_map_ok h
+      cases hw
+      exact ⟨ws, rfl⟩
+    · cases h
+      exact ⟨sws, rfl⟩
+
 theorem fetchValue_shape (mo ms ro : Obj) (h : fetchValue mo ms = .ok (some ro)) :
     ∃ mm mws ws, mo = .defn mm mws ∧ ro = .defn { mm with tmpl := 0 } ws := by
   cases mo with
@@ -292,17 +332,11 @@ theorem fetchValue_shape (mo ms ro : Obj) (h : fetchValue mo ms = .ok (some ro))
     cases ms with
     | scope m k => cases h
     | defn sm sws =>
-      simp only [fetchValue] at h
+      rw [fetchValue_defn] at h
       split at h
       · cases h
-      · split at h
-        · cases h
-        · split at h
-          · obtain ⟨ws, _, hw⟩ := except_map_ok h
-            cases hw
-            exact ⟨mm, mws, ws, rfl, rfl⟩
-          · cases h
-            exact ⟨mm, mws, sws, rfl, rfl⟩
+      · obtain ⟨ws, hw⟩ := fetchValueW_shape mm mws _ ro h
+        exact ⟨mm, mws, ws, rfl, hw⟩
 
 theorem fetchDefn_shape (e : Envs) (fuel : Nat) (diff : Bool) (mo ms ro : Obj)
     (h : fetchDefn e fuel diff mo ms = .ok (some ro)) :
@@ -688,7 +722,8 @@ theorem split_law (e : Envs) (diff : Bool) (master s1 s2 : List Obj) :
     fetchRoot e diff master [s1 ++ s2] = fetchRoot e diff master [s1, s2] :=
   fetchRoot_flatten e diff master _ _ (by simp)
 
-/-! ## 5. consumed ids are ids of active source definitions (C06.7) -/
+/-! ## 5. consumed ids are ids of active source definitions, or were consulted while resolving the
+    variables of one (C06.7) -/
 
 /-- `x` occurs in `l`, at any depth, enabled and below enabled scopes only -/
 inductive ActiveIn (x : Obj) : List Obj → Prop
@@ -828,8 +863,35 @@ theorem fetchMatching_activeIn (fuel : Nat) (sm : Meta) (combined : List Obj) (m
 def DefnIdActive (i : Nat) (l : List Obj) : Prop :=
   ∃ d, ActiveIn d l ∧ d.isDefn = true ∧ d.meta.id = some i
 
+/-- `i` was consulted while resolving the variables of an enabled definition occurring in `l` below
+    enabled scopes (`srcRefs d` = the `refs` of `d.meta.varRes`) -/
+def RefIdActive (i : Nat) (l : List Obj) : Prop :=
+  ∃ d, ActiveIn d l ∧ d.isDefn = true ∧ i ∈ srcRefs d
+
+/-- `i` is marked on account of the definition `d`: it is `d`'s own id, or the id of a definition
+    consulted while resolving the variables of `d` -/
+def MarkedBy (i : Nat) (d : Obj) : Prop := d.meta.id = some i ∨ i ∈ srcRefs d
+
+/-- `i` is marked on account of an enabled definition occurring in `l` below enabled scopes -/
+def UsedIdActive (i : Nat) (l : List Obj) : Prop :=
+  ∃ d, ActiveIn d l ∧ d.isDefn = true ∧ MarkedBy i d
+
+theorem usedIdActive_iff (i : Nat) (l : List Obj) :
+    UsedIdActive i l ↔ DefnIdActive i l ∨ RefIdActive i l := by
+  constructor
+  · rintro ⟨d, ha, hd, hi | hi⟩
+    · exact .inl ⟨d, ha, hd, hi⟩
+    · exact .inr ⟨d, ha, hd, hi⟩
+  · rintro (⟨d, ha, hd, hi⟩ | ⟨d, ha, hd, hi⟩)
+    · exact ⟨d, ha, hd, .inl hi⟩
+    · exact ⟨d, ha, hd, .inr hi⟩
+
+/-- definitions without a recorded variable resolution contribute their own id only -/
+theorem srcRefs_of_varRes_none (d : Obj) (h : d.meta.varRes = none) : srcRefs d = [] := by
+  unfold srcRefs; rw [h]
+
 def UsedOK (F : FetchFn) : Prop :=
-  ∀ diff mm kids src ro u, F diff mm kids src = .ok (ro, u) → ∀ i ∈ u, DefnIdActive i src
+  ∀ diff mm kids src ro u, F diff mm kids src = .ok (ro, u) → ∀ i ∈ u, UsedIdActive i src
 
 theorem fetchValue_src_defn (mo ms : Obj) (r : Option Obj) (h : fetchValue mo ms = .ok r) :
     mo.isDefn = true ∧ ms.isDefn = true := by
@@ -857,7 +919,7 @@ theorem mem_idOf {ms : Obj} {i : Nat} (h : i ∈ idOf ms) : ms.meta.id = some i 
   · cases h
 
 theorem defnOne_fold_used (e : Envs) (fuel : Nat) (diff : Bool) (mo : Obj) (l : List Obj)
-    (P : Nat → Prop) (hl : ∀ ms ∈ l, ms.isDefn = true → ∀ i, ms.meta.id = some i → P i)
+    (P : Nat → Prop) (hl : ∀ ms ∈ l, ms.isDefn = true → ∀ i, MarkedBy i ms → P i)
     (init r : Option Obj × List Nat) (hu : ∀ i ∈ init.2, P i)
     (h : l.foldlM (defnOne e fuel diff mo) init = .ok r) : ∀ i ∈ r.2, P i := by
   refine foldlM_inv (fun (acc : Option Obj × List Nat) => ∀ i ∈ acc.2, P i)
@@ -867,14 +929,15 @@ theorem defnOne_fold_used (e : Envs) (fuel : Nat) (diff : Bool) (mo : Obj) (l : 
   obtain ⟨x, hx, hb'⟩ := except_map_ok hf
   subst hb'
   simp only [List.mem_append] at hi
-  rcases hi with hi | hi
+  rcases hi with (hi | hi) | hi
   · exact hb i hi
-  · exact hl a ha (fetchDefn_src_defn e fuel diff mo a x hx).2 i (mem_idOf hi)
+  · exact hl a ha (fetchDefn_src_defn e fuel diff mo a x hx).2 i (.inl (mem_idOf hi))
+  · exact hl a ha (fetchDefn_src_defn e fuel diff mo a x hx).2 i (.inr hi)
 
 theorem candOf_used (F : FetchFn) (hF : UsedOK F) (e : Envs) (fuel : Nat) (diff : Bool) (mo : Obj)
     (fromM : Bool) (ms : Obj) (c : Option Obj) (u : List Nat) (combined : List Obj)
     (hms : fromM = false → ActiveIn ms combined)
-    (h : candOf F e fuel diff mo fromM ms = .ok (c, u)) : ∀ i ∈ u, DefnIdActive i combined := by
+    (h : candOf F e fuel diff mo fromM ms = .ok (c, u)) : ∀ i ∈ u, UsedIdActive i combined := by
   cases fromM with
   | true =>
     unfold candOf at h
@@ -882,7 +945,10 @@ theorem candOf_used (F : FetchFn) (hF : UsedOK F) (e : Envs) (fuel : Nat) (diff 
     · obtain ⟨x, hx, hb⟩ := except_map_ok h
       cases hb
       intro i hi
-      split at hi <;> simp at hi
+      rw [List.mem_append] at hi
+      rcases hi with hi | hi
+      · split at hi <;> simp at hi
+      · simp at hi
     · obtain ⟨⟨ro, u'⟩, hx, hb⟩ := except_map_ok h
       cases hb
       intro i hi
@@ -895,12 +961,16 @@ theorem candOf_used (F : FetchFn) (hF : UsedOK F) (e : Envs) (fuel : Nat) (diff 
     · obtain ⟨x, hx, hb⟩ := except_map_ok h
       cases hb
       intro i hi
-      split at hi
-      · rename_i j hj
-        simp only [Bool.false_eq_true, if_false, List.mem_singleton] at hi
-        subst hi
-        exact ⟨ms, hact, (fetchDefn_src_defn e fuel diff _ ms _ hx).2, hj⟩
-      · cases hi
+      rw [List.mem_append] at hi
+      rcases hi with hi | hi
+      · split at hi
+        · rename_i j hj
+          simp only [Bool.false_eq_true, if_false, List.mem_singleton] at hi
+          subst hi
+          exact ⟨ms, hact, (fetchDefn_src_defn e fuel diff _ ms _ hx).2, .inl hj⟩
+        · cases hi
+      · simp only [Bool.false_eq_true, if_false] at hi
+        exact ⟨ms, hact, (fetchDefn_src_defn e fuel diff _ ms _ hx).2, .inr hi⟩
     · obtain ⟨⟨ro, u'⟩, hx, hb⟩ := except_map_ok h
       cases hb
       intro i hi
@@ -927,9 +997,9 @@ theorem cAccept_used (diff fromM : Bool) (cs : Str) (c : Obj) (u : List Nat)
 theorem cstepG_used (F : FetchFn) (hF : UsedOK F) (e : Envs) (fuel : Nat) (diff : Bool) (mo : Obj)
     (masterStr : Str) (acc : CAcc) (fm : Bool × Obj) (r : CAcc) (combined : List Obj)
     (hfm : fm.1 = false → ActiveIn fm.2 combined)
-    (hr : ∀ i ∈ acc.2.2, DefnIdActive i combined)
-    (h : cstepG F e fuel diff mo masterStr acc fm = .ok r) : ∀ i ∈ r.2.2, DefnIdActive i combined := by
-  have happ : ∀ u, (∀ i ∈ u, DefnIdActive i combined) → ∀ i ∈ acc.2.2 ++ u, DefnIdActive i combined := by
+    (hr : ∀ i ∈ acc.2.2, UsedIdActive i combined)
+    (h : cstepG F e fuel diff mo masterStr acc fm = .ok r) : ∀ i ∈ r.2.2, UsedIdActive i combined := by
+  have happ : ∀ u, (∀ i ∈ u, UsedIdActive i combined) → ∀ i ∈ acc.2.2 ++ u, UsedIdActive i combined := by
     intro u hu i hi
     rw [List.mem_append] at hi
     rcases hi with hi | hi
@@ -952,17 +1022,17 @@ theorem cstepG_used (F : FetchFn) (hF : UsedOK F) (e : Envs) (fuel : Nat) (diff 
 
 theorem stepG_used (F : FetchFn) (hF : UsedOK F) (e : Envs) (fuel : Nat) (diff : Bool) (sm : Meta)
     (mkids combined : List Obj) (st : List Obj × List Nat) (io : Nat × Obj) (r : List Obj × List Nat)
-    (hst : ∀ i ∈ st.2, DefnIdActive i combined)
-    (h : stepG F e fuel diff sm mkids combined st io = .ok r) : ∀ i ∈ r.2, DefnIdActive i combined := by
+    (hst : ∀ i ∈ st.2, UsedIdActive i combined)
+    (h : stepG F e fuel diff sm mkids combined st io = .ok r) : ∀ i ∈ r.2, UsedIdActive i combined := by
   have hmatch := fetchMatching_activeIn fuel sm combined io.2
   unfold stepG at h
   split at h
   · split at h
     · rename_i mm mws hio
       have key : ∀ r', (fetchMatching fuel sm combined io.2).foldlM (defnOne e fuel diff io.2) (none, st.2) = .ok r' →
-          ∀ i ∈ r'.2, DefnIdActive i combined := by
+          ∀ i ∈ r'.2, UsedIdActive i combined := by
         intro r' hfold
-        exact defnOne_fold_used e fuel diff io.2 _ (fun i => DefnIdActive i combined)
+        exact defnOne_fold_used e fuel diff io.2 _ (fun i => UsedIdActive i combined)
           (fun ms hms hd i hi => ⟨ms, hmatch ms hms, hd, hi⟩) _ r' hst hfold
       unfold defnFinish at h
       split at h
@@ -979,7 +1049,7 @@ theorem stepG_used (F : FetchFn) (hF : UsedOK F) (e : Envs) (fuel : Nat) (diff :
       · split at h
         · cases h
         · rename_i ro u2 hrec
-          have hu2 : ∀ i ∈ st.2 ++ u2, DefnIdActive i combined := by
+          have hu2 : ∀ i ∈ st.2 ++ u2, UsedIdActive i combined := by
             intro i hi
             rw [List.mem_append] at hi
             rcases hi with hi | hi
@@ -1004,7 +1074,7 @@ theorem stepG_used (F : FetchFn) (hF : UsedOK F) (e : Envs) (fuel : Nat) (diff :
       · cases h
       · rename_i robjs processed used' hfold
         cases h
-        refine foldlM_inv (fun (acc : CAcc) => ∀ i ∈ acc.2.2, DefnIdActive i combined)
+        refine foldlM_inv (fun (acc : CAcc) => ∀ i ∈ acc.2.2, UsedIdActive i combined)
           (cstepG F e fuel diff io.2 masterStr) _ ?_ _ _ hst hfold
         intro b a b' ha hb hf
         refine cstepG_used F hF e fuel diff io.2 masterStr b a b' combined ?_ hb hf
@@ -1032,16 +1102,17 @@ theorem fetchScope_usedOK (e : Envs) : ∀ (fuel : Nat), UsedOK (fetchScope e fu
     · cases h
     · rename_i actives hact
       obtain ⟨out, hfold, hro⟩ := fetchFinish_ok h
-      exact foldlM_inv (fun (st : List Obj × List Nat) => ∀ i ∈ st.2, DefnIdActive i combined)
+      exact foldlM_inv (fun (st : List Obj × List Nat) => ∀ i ∈ st.2, UsedIdActive i combined)
         (stepG (fetchScope e fuel) e fuel diff sm mkids combined) actives
         (fun b a b' _ hb hf => stepG_used _ ih e fuel diff sm mkids combined b a b' hb hf)
         _ _ (by intro i hi; cases hi) hfold
 
-/-- **C06.7** every consumed id is the id of an enabled source definition (reached through enabled
-    scopes only) -/
+/-- **C06.7** every consumed id is marked on account of an enabled source definition `d` (reached
+    through enabled scopes only): it is the id of `d`, or one of the ids consulted while the
+    variables of `d` were resolved (`srcRefs d`) -/
 theorem used_are_source_ids (e : Envs) (fuel : Nat) (diff : Bool) (sm : Meta) (mkids combined : List Obj)
     (ro : Obj) (used : List Nat) (h : fetchScope e fuel diff sm mkids combined = .ok (ro, used)) :
-    ∀ i ∈ used, DefnIdActive i combined :=
+    ∀ i ∈ used, UsedIdActive i combined :=
   fetchScope_usedOK e fuel diff sm mkids combined ro used h
 
 /-! ## 6. negation witnesses, checked by kernel evaluation (C07/C08.9) -/
@@ -1133,6 +1204,38 @@ def Obj.words : Obj → List Word
   | .defn _ ws => ws
   | .scope _ _ => []
 
+/-- the words a source definition contributes: the resolved words recorded by
+    `resolve_variables` (`Meta.varRes = some (.ok rws refs)`), else its own words -/
+def Obj.srcWords (o : Obj) : List Word :=
+  match o.meta.varRes with
+  | some (.ok rws _) => rws
+  | _ => o.words
+
+/-- a source object whose variable resolution succeeds in the model: a successful resolution is
+    recorded, or nothing is recorded and the words contain no live `$` -/
+def SrcOK (o : Obj) : Prop :=
+  (∃ rws refs, o.meta.varRes = some (.ok rws refs)) ∨ (o.meta.varRes = none ∧ hasDollar o.words = false)
+
+theorem srcWords_of_varRes_none (o : Obj) (h : o.meta.varRes = none) : o.srcWords = o.words := by
+  unfold Obj.srcWords; rw [h]
+
+theorem SrcOK.of_none {o : Obj} (h : o.meta.varRes = none) (hd : hasDollar o.words = false) : SrcOK o :=
+  .inr ⟨h, hd⟩
+
+theorem srcWordsR_ok (sm : Meta) (sws : List Word) (h : SrcOK (.defn sm sws)) :
+    srcWordsR sm sws = .ok (Obj.defn sm sws).srcWords := by
+  unfold srcWordsR Obj.srcWords
+  rcases h with ⟨rws, refs, h⟩ | ⟨h, hd⟩
+  · simp only [Obj.meta] at h ⊢; rw [h]
+  · simp only [Obj.meta, Obj.words] at h hd ⊢; rw [h]; simp only [hd, Bool.false_eq_true, if_false]
+
+/-- the ids marked when the source definition `ms` is fetched: its own id and the ids consulted while
+    resolving its variables -/
+def marksOf (ms : Obj) : List Nat := idOf ms ++ srcRefs ms
+
+theorem marksOf_of_varRes_none (ms : Obj) (h : ms.meta.varRes = none) : marksOf ms = idOf ms := by
+  unfold marksOf; rw [srcRefs_of_varRes_none ms h, List.append_nil]
+
 /-- the enabled objects of `l` called `n` -/
 def activeNamed (n : Str) (l : List Obj) : List Obj :=
   l.filter (fun d => !d.meta.disabled && d.name == n)
@@ -1140,7 +1243,7 @@ def activeNamed (n : Str) (l : List Obj) : List Obj :=
 /-- the master definition `mo` with the words of the last element of `l`; `mo` itself if `l = []` -/
 def lastWins (mo : Obj) (l : List Obj) : Obj :=
   match l.getLast? with
-  | some d => .defn { mo.meta with tmpl := 0 } d.words
+  | some d => .defn { mo.meta with tmpl := 0 } d.srcWords
   | none => mo
 
 /-- a plain master definition: not `.multiple`, not `.deprecated`, not a choice -/
@@ -1149,14 +1252,20 @@ structure PlainMeta (mm : Meta) : Prop where
   notDeprecated : (mm.attrs.get "deprecated").truthy = false
   notChoice : ∀ b, mm.attrs.get "type" ≠ .conv (.choice b)
 
-theorem fetchValue_plain (mm : Meta) (mws : List Word) (sm : Meta) (sws : List Word)
-    (hp : PlainMeta mm) (hdol : hasDollar sws = false) :
-    fetchValue (.defn mm mws) (.defn sm sws) = .ok (some (.defn { mm with tmpl := 0 } sws)) := by
-  simp only [fetchValue, hdol, hp.notDeprecated, Bool.false_and, Bool.false_eq_true, if_false]
+theorem fetchValueW_plain (mm : Meta) (mws sws : List Word) (hp : PlainMeta mm) :
+    fetchValueW mm mws sws = .ok (some (.defn { mm with tmpl := 0 } sws)) := by
+  simp only [fetchValueW, hp.notDeprecated, Bool.false_and, Bool.false_eq_true, if_false]
   split
   · rename_i b hb
     exact absurd hb (hp.notChoice b)
   · rfl
+
+theorem fetchValue_plain (mm : Meta) (mws : List Word) (sm : Meta) (sws : List Word)
+    (hp : PlainMeta mm) (hok : SrcOK (.defn sm sws)) :
+    fetchValue (.defn mm mws) (.defn sm sws) =
+      .ok (some (.defn { mm with tmpl := 0 } (Obj.defn sm sws).srcWords)) := by
+  rw [fetchValue_defn, srcWordsR_ok sm sws hok]
+  exact fetchValueW_plain mm mws _ hp
 
 theorem fetchDefn_nodiff (e : Envs) (fuel : Nat) (mo ms : Obj) :
     fetchDefn e fuel false mo ms = fetchValue mo ms := by
@@ -1166,20 +1275,20 @@ theorem fetchDefn_nodiff (e : Envs) (fuel : Nat) (mo ms : Obj) :
 /-- the value carried out of the loop over the matching sources -/
 def lastVal (mm : Meta) (l : List Obj) (init : Option Obj) : Option Obj :=
   match l.getLast? with
-  | some d => some (.defn { mm with tmpl := 0 } d.words)
+  | some d => some (.defn { mm with tmpl := 0 } d.srcWords)
   | none => init
 
 theorem lastVal_cons (mm : Meta) (d : Obj) (l : List Obj) (init : Option Obj) :
-    lastVal mm (d :: l) init = lastVal mm l (some (.defn { mm with tmpl := 0 } d.words)) := by
+    lastVal mm (d :: l) init = lastVal mm l (some (.defn { mm with tmpl := 0 } d.srcWords)) := by
   unfold lastVal
   rw [List.getLast?_cons]
   cases l.getLast? <;> rfl
 
 theorem defnOne_fold_plain (e : Envs) (fuel : Nat) (mm : Meta) (mws : List Word) (hp : PlainMeta mm) :
     ∀ (l : List Obj) (init : Option Obj) (used : List Nat),
-      (∀ o ∈ l, o.isDefn = true ∧ hasDollar o.words = false) →
+      (∀ o ∈ l, o.isDefn = true ∧ SrcOK o) →
       l.foldlM (defnOne e fuel false (.defn mm mws)) (init, used) =
-        .ok (lastVal mm l init, used ++ l.flatMap idOf) := by
+        .ok (lastVal mm l init, used ++ l.flatMap marksOf) := by
   intro l
   induction l with
   | nil => intro init used _; simp [lastVal]; rfl
@@ -1191,14 +1300,15 @@ theorem defnOne_fold_plain (e : Envs) (fuel : Nat) (mm : Meta) (mws : List Word)
     | defn sm sws =>
       rw [List.foldlM_cons]
       have h1 : defnOne e fuel false (.defn mm mws) (init, used) (.defn sm sws) =
-          .ok (some (.defn { mm with tmpl := 0 } sws), used ++ idOf (.defn sm sws)) := by
-        unfold defnOne
-        rw [fetchDefn_nodiff, fetchValue_plain mm mws sm sws hp hd.2]
+          .ok (some (.defn { mm with tmpl := 0 } (Obj.defn sm sws).srcWords),
+               used ++ marksOf (.defn sm sws)) := by
+        unfold defnOne marksOf
+        rw [fetchDefn_nodiff, fetchValue_plain mm mws sm sws hp hd.2, List.append_assoc]
         rfl
       rw [h1]
       show l.foldlM _ _ = _
       rw [ih _ _ (fun o ho => hl o (List.mem_cons_of_mem _ ho)), lastVal_cons]
-      simp [Obj.words]
+      simp
 
 theorem flatMap_getWithoutSubst_defns (n : Nat) (p : Str) :
     ∀ (l : List Obj), (∀ o ∈ l, o.isDefn = true) →
@@ -1249,17 +1359,18 @@ theorem fetchMatching_flat (fuel : Nat) (sm : Meta) (combined : List Obj) (mo : 
   funext d
   cases d.meta.disabled <;> simp
 
-/-- **C05.6 (one master child).**  At root level, in non-diff mode, with definition-only variable-free
-    sources, the step of the master loop for a plain master definition appends the master
-    definition carrying the words of the last enabled source definition of that name (the master
-    definition itself if there is none), and marks all those source definitions as used. -/
+/-- **C05.6 (one master child).**  At root level, in non-diff mode, with definition-only sources whose
+    variable resolution succeeds (`SrcOK`), the step of the master loop for a plain master
+    definition appends the master definition carrying the (resolved) words of the last enabled
+    source definition of that name (the master definition itself if there is none), and marks all
+    those source definitions as used together with the ids consulted for them (`marksOf`). -/
 theorem last_wins_step (F : FetchFn) (e : Envs) (fuel : Nat) (sm : Meta) (mkids combined : List Obj)
     (st : List Obj × List Nat) (idx : Nat) (mm : Meta) (mws : List Word)
     (hsm : sm.name = []) (hsd : sm.disabled = false) (hname : mm.name ≠ []) (hp : PlainMeta mm)
-    (hdef : ∀ o ∈ combined, o.isDefn = true) (hdol : ∀ o ∈ combined, hasDollar o.words = false) :
+    (hdef : ∀ o ∈ combined, o.isDefn = true) (hsrc : ∀ o ∈ combined, SrcOK o) :
     stepG F e fuel false sm mkids combined st (idx, .defn mm mws) =
       .ok (st.1 ++ [lastWins (.defn mm mws) (activeNamed mm.name combined)],
-           st.2 ++ (activeNamed mm.name combined).flatMap idOf) := by
+           st.2 ++ (activeNamed mm.name combined).flatMap marksOf) := by
   have hmult : isMultiple (.defn mm mws) = false := hp.notMultiple
   unfold stepG
   simp only [hmult, Bool.not_false, if_true]
@@ -1267,7 +1378,7 @@ theorem last_wins_step (F : FetchFn) (e : Envs) (fuel : Nat) (sm : Meta) (mkids 
   rw [defnOne_fold_plain e fuel mm mws hp _ _ _ (by
     intro o ho
     have := (List.mem_filter.mp ho).1
-    exact ⟨hdef o this, hdol o this⟩)]
+    exact ⟨hdef o this, hsrc o this⟩)]
   show defnFinish false (.defn mm mws) mm st.1 (.ok (lastVal mm (activeNamed mm.name combined) none, _)) = _
   unfold defnFinish lastVal lastWins
   cases (activeNamed mm.name combined).getLast? with
@@ -1461,7 +1572,7 @@ theorem fetch_order (e : Envs) (fuel : Nat) (diff : Bool) (sm : Meta) (mkids com
 theorem last_wins (e : Envs) (fuel : Nat) (sm : Meta) (mkids combined : List Obj)
     (rm : Meta) (out : List Obj) (used : List Nat)
     (hsm : sm.name = []) (hsd : sm.disabled = false)
-    (hdef : ∀ o ∈ combined, o.isDefn = true) (hdol : ∀ o ∈ combined, hasDollar o.words = false)
+    (hdef : ∀ o ∈ combined, o.isDefn = true) (hsrc : ∀ o ∈ combined, SrcOK o)
     (h : fetchScope e fuel false sm mkids combined = .ok (.scope rm out, used))
     (actives : List (Nat × Obj)) (hact : masterActiveObjects mkids = .ok actives)
     (idx : Nat) (mm : Meta) (mws : List Word) (hmem : (idx, Obj.defn mm mws) ∈ actives)
@@ -1486,7 +1597,7 @@ theorem last_wins (e : Envs) (fuel : Nat) (sm : Meta) (mkids combined : List Obj
         obtain ⟨i, o⟩ := a
         simp only at ha
         subst ha
-        rw [last_wins_step _ e fuel sm mkids combined st i mm mws hsm hsd hname hp hdef hdol] at hf
+        rw [last_wins_step _ e fuel sm mkids combined st i mm mws hsm hsd hname hp hdef hsrc] at hf
         cases hf
         simp only at hnew
         exact (List.append_cancel_left hnew).symm)
@@ -1585,29 +1696,29 @@ def flatResult (mkids combined : List Obj) : List Obj :=
   mkids.map (fun mo => lastWins mo (activeNamed mo.name combined))
 
 def flatUsed (mkids combined : List Obj) : List Nat :=
-  mkids.flatMap (fun mo => (activeNamed mo.name combined).flatMap idOf)
+  mkids.flatMap (fun mo => (activeNamed mo.name combined).flatMap marksOf)
 
 /-- **flat masters: complete description of the result** (in particular the fetch cannot fail) -/
 theorem fetch_flat (e : Envs) (fuel : Nat) (sm : Meta) (mkids combined : List Obj)
     (hf : FlatMaster mkids) (hsm : sm.name = []) (hsd : sm.disabled = false)
-    (hdef : ∀ o ∈ combined, o.isDefn = true) (hdol : ∀ o ∈ combined, hasDollar o.words = false) :
+    (hdef : ∀ o ∈ combined, o.isDefn = true) (hsrc : ∀ o ∈ combined, SrcOK o) :
     fetchScope e (fuel + 1) false sm mkids combined =
       .ok (.scope { sm with tmpl := 0 } (flatResult mkids combined), flatUsed mkids combined) := by
   rw [fetchScope_succ, masterActive_flat mkids hf]
   simp only
   rw [foldlM_explicit _ (fun io => [lastWins io.2 (activeNamed io.2.name combined)])
-    (fun io => (activeNamed io.2.name combined).flatMap idOf)]
+    (fun io => (activeNamed io.2.name combined).flatMap marksOf)]
   · unfold fetchFinish flatResult flatUsed
     simp only [List.nil_append]
     rw [flatMap_snd_singleton (fun mo => lastWins mo (activeNamed mo.name combined)),
-      flatMap_snd (fun mo => (activeNamed mo.name combined).flatMap idOf), indexed_map_snd]
+      flatMap_snd (fun mo => (activeNamed mo.name combined).flatMap marksOf), indexed_map_snd]
   · intro st a ha
     have : a.2 ∈ mkids := by rw [← indexed_map_snd mkids]; exact List.mem_map.mpr ⟨a, ha, rfl⟩
     obtain ⟨mm, mws, hmo, hp, hname, _⟩ := hf.plain _ this
     obtain ⟨i, o⟩ := a
     simp only at hmo
     subst hmo
-    exact last_wins_step _ e fuel sm mkids combined st i mm mws hsm hsd hname hp hdef hdol
+    exact last_wins_step _ e fuel sm mkids combined st i mm mws hsm hsd hname hp hdef hsrc
 
 theorem lastWins_name (mo : Obj) (l : List Obj) : (lastWins mo l).name = mo.name := by
   unfold lastWins; cases l.getLast? <;> rfl
@@ -1659,23 +1770,39 @@ theorem activeNamed_map_distinct (f : Obj → Obj) (hname : ∀ o, (f o).name = 
 theorem meta_tmpl0 (mm : Meta) (h : mm.tmpl = 0) : { mm with tmpl := 0 } = mm := by
   cases mm; simp only at h; subst h; rfl
 
-/-- master definitions fit for re-fetching in the model: not template-marked, variable-free default -/
+/-- master definitions fit for re-fetching in the model: not template-marked, no recorded variable
+    resolution (the result objects carry the master's meta data and are the sources of the second
+    fetch), variable-free default -/
 def RefetchOK (mkids : List Obj) : Prop :=
-  ∀ mo ∈ mkids, mo.meta.tmpl = 0 ∧ hasDollar mo.words = false
+  ∀ mo ∈ mkids, mo.meta.tmpl = 0 ∧ mo.meta.varRes = none ∧ hasDollar mo.words = false
+
+theorem lastWins_varRes (mo : Obj) (l : List Obj) : (lastWins mo l).meta.varRes = mo.meta.varRes := by
+  unfold lastWins; cases l.getLast? <;> rfl
 
 theorem lastWins_words_noDollar (mo : Obj) (l : List Obj) (hmo : hasDollar mo.words = false)
-    (hl : ∀ o ∈ l, hasDollar o.words = false) : hasDollar (lastWins mo l).words = false := by
+    (hl : ∀ o ∈ l, hasDollar o.srcWords = false) : hasDollar (lastWins mo l).words = false := by
   unfold lastWins
   cases hg : l.getLast? with
   | none => exact hmo
   | some d => exact hl d (List.mem_of_getLast? hg)
 
-theorem lastWins_idem (mm : Meta) (mws : List Word) (l : List Obj) (ht : mm.tmpl = 0) :
+theorem lastWins_srcOK (mo : Obj) (l : List Obj) (hv : mo.meta.varRes = none)
+    (hmo : hasDollar mo.words = false) (hl : ∀ o ∈ l, hasDollar o.srcWords = false) :
+    SrcOK (lastWins mo l) :=
+  .inr ⟨by rw [lastWins_varRes, hv], lastWins_words_noDollar mo l hmo hl⟩
+
+theorem lastWins_idem (mm : Meta) (mws : List Word) (l : List Obj) (ht : mm.tmpl = 0)
+    (hv : mm.varRes = none) :
     lastWins (.defn mm mws) [lastWins (.defn mm mws) l] = lastWins (.defn mm mws) l := by
+  have hsw : (lastWins (.defn mm mws) l).srcWords = (lastWins (.defn mm mws) l).words :=
+    srcWords_of_varRes_none _ (by rw [lastWins_varRes]; exact hv)
+  have h1 : lastWins (.defn mm mws) [lastWins (.defn mm mws) l] =
+      .defn { mm with tmpl := 0 } (lastWins (.defn mm mws) l).words := by
+    rw [← hsw]; rfl
+  rw [h1]
   unfold lastWins
-  simp only [List.getLast?_singleton]
   cases l.getLast? with
-  | none => simp only [Obj.words, Obj.meta]; rw [meta_tmpl0 mm ht]
+  | none => simp only [Obj.words]; rw [meta_tmpl0 mm ht]
   | some d => rfl
 
 theorem flatResult_idem (mkids combined : List Obj) (hf : FlatMaster mkids) (hr : RefetchOK mkids) :
@@ -1690,16 +1817,17 @@ theorem flatResult_idem (mkids combined : List Obj) (hf : FlatMaster mkids) (hr 
   rw [activeNamed_map_distinct (fun mo => lastWins mo (activeNamed mo.name combined))
     (fun o => lastWins_name o _) (fun o => lastWins_disabled o _) mkids hf.distinct hen mo hmo]
   obtain ⟨mm, mws, rfl, _, _, _⟩ := hf.plain mo hmo
-  exact lastWins_idem mm mws _ (hr _ hmo).1
+  exact lastWins_idem mm mws _ (hr _ hmo).1 (hr _ hmo).2.1
 
 /-- **C07.8** -/
 theorem fetch_flat_idempotent_partial (e : Envs) (fuel : Nat) (mkids combined : List Obj)
     (hf : FlatMaster mkids) (hr : RefetchOK mkids)
-    (hdef : ∀ o ∈ combined, o.isDefn = true) (hdol : ∀ o ∈ combined, hasDollar o.words = false)
+    (hdef : ∀ o ∈ combined, o.isDefn = true) (hsrc : ∀ o ∈ combined, SrcOK o)
+    (hdol : ∀ o ∈ combined, hasDollar o.srcWords = false)
     (rm : Meta) (out : List Obj) (used : List Nat)
     (h : fetchScope e (fuel + 1) false { name := [] } mkids combined = .ok (.scope rm out, used)) :
     ∃ used', fetchScope e (fuel + 1) false { name := [] } mkids out = .ok (.scope rm out, used') := by
-  rw [fetch_flat e fuel _ mkids combined hf rfl rfl hdef hdol] at h
+  rw [fetch_flat e fuel _ mkids combined hf rfl rfl hdef hsrc] at h
   cases h
   refine ⟨flatUsed mkids (flatResult mkids combined), ?_⟩
   rw [fetch_flat e fuel _ mkids _ hf rfl rfl, flatResult_idem mkids combined hf hr]
@@ -1713,7 +1841,7 @@ theorem fetch_flat_idempotent_partial (e : Envs) (fuel : Nat) (mkids combined : 
     unfold flatResult at ho
     rw [List.mem_map] at ho
     obtain ⟨mo, hmo, rfl⟩ := ho
-    exact lastWins_words_noDollar mo _ (hr mo hmo).2
+    exact lastWins_srcOK mo _ (hr mo hmo).2.1 (hr mo hmo).2.2
       (fun d hd => hdol d (List.mem_filter.mp hd).1)
 
 /-! ## 10. disabled source objects are ignored (C04.4) -/
@@ -1846,12 +1974,15 @@ theorem fetchDefn_strip (e : Envs) (fuel : Nat) (diff : Bool) (mo ms : Obj) :
 theorem idOf_strip (ms : Obj) : idOf (stripObj ms) = idOf ms := by
   unfold idOf; rw [stripObj_meta]
 
+theorem srcRefs_strip (ms : Obj) : srcRefs (stripObj ms) = srcRefs ms := by
+  unfold srcRefs; rw [stripObj_meta]
+
 def StripInv (F : FetchFn) : Prop :=
   ∀ diff mm kids src, F diff mm kids (stripList src) = F diff mm kids src
 
 theorem defnOne_strip (e : Envs) (fuel : Nat) (diff : Bool) (mo : Obj) (acc : Option Obj × List Nat)
     (ms : Obj) : defnOne e fuel diff mo acc (stripObj ms) = defnOne e fuel diff mo acc ms := by
-  unfold defnOne; rw [fetchDefn_strip, idOf_strip]
+  unfold defnOne; rw [fetchDefn_strip, idOf_strip, srcRefs_strip]
 
 theorem candOf_strip (F : FetchFn) (hF : StripInv F) (e : Envs) (fuel : Nat) (diff : Bool) (mo : Obj)
     (fromM : Bool) (ms : Obj) :
@@ -1859,7 +1990,7 @@ theorem candOf_strip (F : FetchFn) (hF : StripInv F) (e : Envs) (fuel : Nat) (di
   cases mo with
   | defn mm mws =>
     unfold candOf
-    simp only [fetchDefn_strip, stripObj_meta]
+    simp only [fetchDefn_strip, stripObj_meta, srcRefs_strip]
   | scope mm kids =>
     cases ms with
     | defn m ws => rw [stripObj]
@@ -2078,5 +2209,27 @@ theorem defnIdActive_allDefinitions {i : Nat} {l : List Obj} (h : DefnIdActive i
       left
       obtain ⟨path, hp⟩ := activeIn_allDefs hd hinc []
       exact ⟨(path, m, ws), hp, hid⟩
+
+/-- a consumed id is the id of an entry of `all_definitions` of the sources, or of an enabled
+    definition called `include`, or was consulted while the variables of an enabled source
+    definition were resolved -/
+theorem usedIdActive_allDefinitions {i : Nat} {l : List Obj} (h : UsedIdActive i l) :
+    (∃ d ∈ allDefinitions l, d.2.1.id = some i) ∨
+    (∃ m ws, ActiveIn (.defn m ws) l ∧ m.name = "include".toList ∧ m.id = some i) ∨
+    RefIdActive i l := by
+  rcases (usedIdActive_iff i l).mp h with h | h
+  · rcases defnIdActive_allDefinitions h with h | h
+    · exact .inl h
+    · exact .inr (.inl h)
+  · exact .inr (.inr h)
+
+/-- without recorded variable resolutions (`varRes = none` on every active source definition) the
+    marks are exactly ids of active source definitions, as before -/
+theorem usedIdActive_of_no_varRes {i : Nat} {l : List Obj}
+    (hno : ∀ d, ActiveIn d l → d.isDefn = true → d.meta.varRes = none) (h : UsedIdActive i l) :
+    DefnIdActive i l := by
+  obtain ⟨d, ha, hd, hi | hi⟩ := h
+  · exact ⟨d, ha, hd, hi⟩
+  · rw [srcRefs_of_varRes_none d (hno d ha hd)] at hi; cases hi
 
 end Phil
